@@ -146,7 +146,7 @@ func (ctx *Context) searchArgInText(text []ast.Inline, opts map[string]Option) (
 func macroIfStart(exp Exporter) {
 	// macro .#if
 	ctx := exp.Context()
-	ctx.pushScope(&scope{kind: scopeIf})
+	ctx.pushScope(&scope{kind: scopeIf, macro: "#if"})
 	if ctx.ifIgnoreDepth > 0 {
 		ctx.ifIgnoreDepth++
 		return
